@@ -1,15 +1,59 @@
 (* C03 - signatures are byte-identical to FIPS 204 Sign for the drawn rnd.
 
-   FULL STATEMENT (not yet proved):
-     sk_try_from_bytes P skb = Ok sk -> zlen ctx <= 255 ->
-       try_sign_with_rng H fuel P sk (Fill rnd :: g) M ctx = (Ok sig, g) <-> Sign H fuel P skb M ctx rnd = SR_sig sig
-     (same for the three pre-hash modes and the internal interface).
-   Proved here: the signature is a function of (sk, M, ctx, mode, rnd) only - the entry points
-   pass exactly the drawn 32 bytes, the caller's context and the generated OID/digest to
-   sign_internal - and the pre-hash table read from hashing.rs equals FIPS 204's. *)
+   FULL STATEMENT, proved below (C03_sign_is_FIPS204_Sign, C03_hash_sign_is_FIPS204_HashSign,
+   C03_internal_sign_is_FIPS204_Sign_internal, C03_generated_key_signs_like_its_bytes) for every hash
+   family with the output-length laws, each parameter set, every private-key byte string that
+   deserialisation accepts and every generated key, every message, context, pre-hash function and
+   32-byte rnd: the model of try_sign_with_rng / try_hash_sign_with_rng / _internal_sign (with
+   the generator answering rnd) returns exactly what the transcription of FIPS 204 Algorithms 2, 4, 7
+   returns on the key's byte string: the same signature bytes, CtxTooLong for contexts over 255 bytes
+   (nothing drawn), and OutOfFuel exactly when the transcription runs out of the loop/squeeze fuel.
+   No Panic: every checked i32/i64 operation and every debug_assert in ExpandMask, the NTT pipeline,
+   HighBits/LowBits/MakeHint, the norm checks, center_mod, sig_encode and hint_bit_pack holds.
+   Hypothesis on the model's loop budget: fuel * l < 65536 (the crate's kappa is a u16; the 9362nd
+   consecutive rejection for l = 7 would overflow it - outside anything reachable, stated, not hidden).
+   The remaining theorems say the entry points pass exactly the drawn bytes and the FIPS 204 pre-hash table. *)
+Require Import List ZArith. Import ListNotations.
 Require Import F204.Base.Util F204.Base.Mach F204.Gen.Params F204.Gen.Guards F204.Gen.Oids
-  F204.Hash.HashIface F204.Impl.Hashing F204.Impl.MlDsa F204.Impl.Api F204.Spec.SpecMLDSA.
+  F204.Hash.HashIface F204.Impl.Hashing F204.Impl.Encodings F204.Impl.MlDsa F204.Impl.Api F204.Spec.SpecMLDSA
+  F204.Proofs.BitPackProofs F204.Proofs.SampleRefine F204.Proofs.KeygenRefine F204.Proofs.DeriveRefine F204.Proofs.SignRefine.
 Open Scope Z_scope.
+
+Theorem C03_sign_is_FIPS204_Sign : forall H, HashLaws H -> forall P, In P all_params -> forall fuel, Z.of_nat fuel * lz P < 65536 ->
+  forall skb sk, bytes_ok skb -> zlen skb = p_sk_len P -> sk_try_from_bytes P skb = Ok sk ->
+  forall rnd g M ctx, zlen rnd = 32 ->
+  try_sign_with_rng H fuel P sk (Fill rnd :: g) M ctx
+    = (res_sign (Sign H fuel P skb M ctx rnd), if 255 <? zlen ctx then Fill rnd :: g else g).
+Proof. exact try_sign_refines. Qed.
+
+Theorem C03_hash_sign_is_FIPS204_HashSign : forall H, HashLaws H -> forall P, In P all_params -> forall fuel, Z.of_nat fuel * lz P < 65536 ->
+  forall skb sk, bytes_ok skb -> zlen skb = p_sk_len P -> sk_try_from_bytes P skb = Ok sk ->
+  forall rnd g M ctx ph, zlen rnd = 32 ->
+  try_hash_sign_with_rng H fuel P sk (Fill rnd :: g) M ctx ph
+    = (res_sign (HashSign H fuel P skb M ctx (VerifyRefine.ph_to_spec ph) rnd), if 255 <? zlen ctx then Fill rnd :: g else g).
+Proof. exact try_hash_sign_refines. Qed.
+
+Theorem C03_internal_sign_is_FIPS204_Sign_internal : forall H, HashLaws H -> forall P, In P all_params -> forall fuel, Z.of_nat fuel * lz P < 65536 ->
+  forall skb sk, bytes_ok skb -> zlen skb = p_sk_len P -> sk_try_from_bytes P skb = Ok sk ->
+  forall rnd M ctx, zlen ctx <= 255 ->
+  internal_sign H fuel P sk M ctx rnd = res_fuel (Sign_internal H fuel P skb M rnd).
+Proof. exact internal_sign_refines. Qed.
+
+(* a key returned by key generation is the struct its own serialisation deserialises to (C09), and that
+   serialisation is FIPS 204's skEncode output (C04): so it signs exactly like FIPS 204 on that encoding *)
+Theorem C03_generated_key_signs_like_its_bytes : forall H, HashLaws H -> forall P, In P all_params -> forall xi pk sk,
+  keygen_from_seed H P xi = Ok (pk, sk) ->
+  exists skb, sk_into_bytes P sk = Ok skb /\ bytes_ok skb /\ zlen skb = p_sk_len P /\ sk_try_from_bytes P skb = Ok sk /\
+              exists pkb, KeyGen_internal H P xi = Some (pkb, skb).
+Proof.
+  intros H HL P HP xi pk sk E.
+  destruct (generated_roundtrip H HL P HP xi pk sk E) as (pkb & skb & _ & _ & Bs & Ls & E1 & _ & E3 & E4).
+  exists skb. repeat split; try assumption.
+  unfold keygen_from_seed in E. destruct (KeyGen_internal H P xi) as [[pkb' skb']|] eqn:EK.
+  - destruct (keygen_bytes H HL P HP xi pkb' skb' EK) as (pk' & sk' & _ & _ & _ & _ & _ & _ & _ & _ & Ek & _ & _ & _ & _ & Epk & Esk).
+    rewrite E in Ek. injection Ek as <- <-. rewrite E1 in Epk. rewrite E3 in Esk. injection Epk as <-. injection Esk as <-. exists pkb. reflexivity.
+  - rewrite (keygen_fuel H HL P HP xi EK) in E. discriminate.
+Qed.
 
 Theorem C03_sign_uses_exactly_rnd : forall H fuel P sk rnd g M ctx,
   zlen rnd = 32 -> zlen ctx <= 255 ->
@@ -34,12 +78,11 @@ Qed.
 
 (* the pre-hash table generated from hashing.rs (T3) is FIPS 204's: same OIDs, same functions,
    same digest lengths, and the whole digest (nothing more) is used *)
-Definition ph_to_spec (p : Ph) : PH :=
-  match p with SHA256 => PH_SHA256 | SHA512 => PH_SHA512 | SHAKE128 => PH_SHAKE128 end.
+Definition ph_to_spec := VerifyRefine.ph_to_spec.
 Theorem C03_prehash_table : forall H (HL : HashLaws H) M p,
   hash_message H M p = (OID (ph_to_spec p), PHM H (ph_to_spec p) M).
 Proof.
-  intros H HL M p. unfold hash_message. destruct p; cbn [ph_oid ph_fn ph_len ph_written ph_to_spec OID PHM];
+  intros H HL M p. unfold hash_message. destruct p; unfold ph_to_spec; cbn [ph_oid ph_fn ph_len ph_written VerifyRefine.ph_to_spec OID PHM];
     f_equal; unfold ztake.
   - rewrite firstn_all2 with (n := Z.to_nat 32) (l := h_sha256 H M) by (rewrite (sha256_len H HL); reflexivity).
     rewrite firstn_app. rewrite (sha256_len H HL). change (Z.to_nat 32 - 32)%nat with 0%nat. cbn [firstn].
@@ -51,6 +94,10 @@ Proof.
     rewrite app_nil_r. apply firstn_all2. rewrite (shake128_len H HL). reflexivity.
 Qed.
 
+Print Assumptions C03_sign_is_FIPS204_Sign.
+Print Assumptions C03_hash_sign_is_FIPS204_HashSign.
+Print Assumptions C03_internal_sign_is_FIPS204_Sign_internal.
+Print Assumptions C03_generated_key_signs_like_its_bytes.
 Print Assumptions C03_sign_uses_exactly_rnd.
 Print Assumptions C03_hash_sign_uses_exactly_rnd.
 Print Assumptions C03_prehash_table.
